@@ -48,10 +48,20 @@ def chainOk (c : String × String × String) : Bool :=
 
 theorem subset_chain_ok : subsetChain.all chainOk = true := by decide
 
+/-- the duration-to-zero clamp of the store-side rate / increase has the reference's condition
+(`clampApplies`: counter, increase > 0, first value >= 0 - a first value of exactly 0 is clamped). -/
+theorem clamp_condition_engine_is_reference :
+    clampCond_engine = ["isCounter", "reduceResult > 0", "pointCount > 0", "firstValue >= 0"] := by decide
+
+/-- the subquery-side implementation has the same condition on the values; it lacks `isCounter`
+(recorded finding: delta over a subquery is cut at the zero point). -/
+theorem clamp_condition_executor_is_reference_but_counter :
+    clampCond_executor = ["reduceResult > 0", "pointCount > 0", "firstValue >= 0"] := by decide
+
 /-- only `last_over_time` keeps the metric name (the reference: `rfnLabels`). -/
 theorem keepMetric_only_last : keepMetricFunctions = ["last_over_time"] := by decide
 ''')
-names += ['generation_ok', 'lookback_is_5m', 'subset_chain_ok', 'keepMetric_only_last']
+names += ['generation_ok', 'lookback_is_5m', 'subset_chain_ok', 'keepMetric_only_last', 'clamp_condition_engine_is_reference', 'clamp_condition_executor_is_reference_but_counter']
 out.append('end OG.C18.Facts\n')
 open('/verif/lean/OG/C18/Facts.lean', 'w').write('\n'.join(out))
 print('\n'.join('   "OG.C18.Facts.%s",' % n for n in names))
